@@ -293,6 +293,31 @@ def construct(cls_name, kwargs):
     return {'cls': cls_name, 'args': {n: abstract(v) for n, v in kwargs.items()} or {'_': {'t': 'none'}}, 'out': out}
 
 
+def build_frame(kind, *args):
+    """a non-method frame object built from explicit constructor arguments: what the caller ASKED for (projected by the
+    harness from the arguments) next to what the object holds afterwards"""
+    from pamqp import body, header
+    from abstraction import a_props, mag
+    if kind == 'ProtocolHeader':
+        want = {'cls': 'ProtocolHeader', 'v': [int(x) for x in args]}
+        mk = lambda: header.ProtocolHeader(*args)   # noqa: E731
+    elif kind == 'ContentBody':
+        want = {'cls': 'ContentBody', 'b': list(bytes(args[0])), 'b_ok': True, 'len': len(args[0])}
+        mk = lambda: body.ContentBody(args[0])      # noqa: E731
+    else:
+        weight, size, props = args
+        want = {'cls': 'ContentHeader', 'class_id': 60, 'weight': weight, 'size': mag(size), 'size_ok': True, 'props': a_props(props)}
+        mk = lambda: header.ContentHeader(weight, size, props)   # noqa: E731
+    try:
+        got = a_frame(mk())
+        r = 'ok'
+        if kind == 'ContentHeader':          # (the class id is not a constructor argument: not part of what was asked for)
+            got['class_id'] = want['class_id'] = 60
+    except Exception as e:  # noqa
+        got, r = {'cls': 'exc:' + type(e).__name__}, 'exc'
+    return {'kind': kind, 'want': want, 'got': got, 'r': r}
+
+
 class BaseRefused(Exception):
     """carries the Construct event of a base construction that was refused"""
 
@@ -320,7 +345,12 @@ def set_then_marshal(cls_name, kwargs, arg, v, ch=1, between=False):
         out = {'r': 'ok', 'b': list(frame.marshal(o, ch))}
     except Exception as e:  # noqa
         out = a_exc(e)
-    return {'cls': cls_name, 'arg': arg, 'in': fin, 'ch': ch, 'out': out}
+    # the SAME object marshalled again, untouched: what the first attempt decided must be decided again
+    try:
+        again = {'r': 'ok', 'b': list(frame.marshal(o, ch))}
+    except Exception as e:  # noqa
+        again = a_exc(e)
+    return {'cls': cls_name, 'arg': arg, 'in': fin, 'ch': ch, 'out': out, 'again': again}
 
 
 def char_block(cls_name, base_kwargs, arg, lo, hi, template=('', '')):
